@@ -41,27 +41,33 @@ type c18Err struct {
 	Class int
 	Ench  [3]int // zero: error has no usable enhanced code
 	Code  int    // 0: error has no basic code
+	First func() error // error of the first attempt when it differs from the last one
 }
 
 var c18Errs = []c18Err{
-	{"perm-plain", func() error { return exterrors.WithTemporary(errors.New("no such user here"), false) }, 5, [3]int{}, 0},
+	{"perm-plain", func() error { return exterrors.WithTemporary(errors.New("no such user here"), false) }, 5, [3]int{}, 0, nil},
 	{"smtp-550-511", func() error {
 		return &exterrors.SMTPError{Code: 550, EnhancedCode: exterrors.EnhancedCode{5, 1, 1}, Message: "User unknown"}
-	}, 5, [3]int{5, 1, 1}, 550},
+	}, 5, [3]int{5, 1, 1}, 550, nil},
 	{"smtp-554-multiline", func() error {
 		return &exterrors.SMTPError{Code: 554, EnhancedCode: exterrors.EnhancedCode{5, 7, 1}, Message: "Rejected by policy\nsee https://example.org/why\r\nthird line"}
-	}, 5, [3]int{5, 7, 1}, 554},
+	}, 5, [3]int{5, 7, 1}, 554, nil},
 	{"smtp-550-nonascii", func() error {
 		return &exterrors.SMTPError{Code: 550, EnhancedCode: exterrors.EnhancedCode{5, 2, 2}, Message: "Boîte pleine — почтовый ящик переполнен"}
-	}, 5, [3]int{5, 2, 2}, 550},
-	{"smtp-550-no-enhanced", func() error { return &exterrors.SMTPError{Code: 550, Message: "no enhanced code from next hop"} }, 5, [3]int{}, 550},
+	}, 5, [3]int{5, 2, 2}, 550, nil},
+	{"smtp-550-no-enhanced", func() error { return &exterrors.SMTPError{Code: 550, Message: "no enhanced code from next hop"} }, 5, [3]int{}, 550, nil},
 	{"temp-exhausted", func() error {
 		return &exterrors.SMTPError{Code: 451, EnhancedCode: exterrors.EnhancedCode{4, 4, 1}, Message: "try later"}
-	}, 4, [3]int{4, 4, 1}, 451},
-	{"unclassified-exhausted", func() error { return errors.New("connection reset by peer") }, 4, [3]int{}, 0},
+	}, 4, [3]int{4, 4, 1}, 451, nil},
+	{"unclassified-exhausted", func() error { return errors.New("connection reset by peer") }, 4, [3]int{}, 0, nil},
+	{"temp-then-perm", func() error {
+		return &exterrors.SMTPError{Code: 550, EnhancedCode: exterrors.EnhancedCode{5, 1, 1}, Message: "User unknown after all"}
+	}, 5, [3]int{5, 1, 1}, 550, func() error {
+		return &exterrors.SMTPError{Code: 451, EnhancedCode: exterrors.EnhancedCode{4, 4, 1}, Message: "try later"}
+	}},
 	{"wrapped-fields", func() error {
 		return exterrors.WithFields(&exterrors.SMTPError{Code: 552, EnhancedCode: exterrors.EnhancedCode{5, 3, 4}, Message: "Message too big"}, map[string]interface{}{"remote_server": "mx.example"})
-	}, 5, [3]int{5, 3, 4}, 552},
+	}, 5, [3]int{5, 3, 4}, 552, nil},
 }
 
 type c18Rcpt struct {
@@ -205,7 +211,7 @@ func c18Run(scratch string, c c18Case) (string, string) {
 		if rc.Result == "ok" {
 			continue
 		}
-		if errOf[rc.Result].Class == 5 {
+		if errOf[rc.Result].Class == 5 && errOf[rc.Result].First == nil {
 			first = append(first, rc)
 		} else {
 			second = append(second, rc)
@@ -517,6 +523,9 @@ func (d *c18Delivery) AddRcpt(ctx context.Context, rcptTo string, o smtp.RcptOpt
 		return err
 	}
 	if r := d.t.res[rcptTo]; r != "ok" && r != "" {
+		if e := d.t.errOf[r]; e.First != nil && d.attempt() == 1 {
+			return e.First()
+		}
 		return d.t.errOf[r].Make()
 	}
 	return nil
@@ -526,3 +535,10 @@ func (d *c18Delivery) Body(ctx context.Context, h textproto.Header, b buffer.Buf
 }
 func (d *c18Delivery) Abort(ctx context.Context) error  { return d.inner.Abort(ctx) }
 func (d *c18Delivery) Commit(ctx context.Context) error { return d.inner.Commit(ctx) }
+
+func (d *c18Delivery) attempt() int {
+	if qd, ok := d.inner.(*qhDelivery); ok {
+		return qd.d.Attempt
+	}
+	return 0
+}
